@@ -53,6 +53,8 @@ type State struct {
 	errs []errRec
 	// reached: call sites executed on this path (Bool terms; inside a loop: during the current iteration)
 	reached map[*ast.CallExpr]string
+	// defers: calls deferred on this path (run, last first, when the function returns)
+	defers []*ast.CallExpr
 }
 
 type errRec struct {
@@ -62,6 +64,7 @@ type errRec struct {
 
 func (s *State) clone() *State {
 	n := &State{env: make(map[*types.Var]Val, len(s.env)), heap: make(map[string]string, len(s.heap)), alloc: s.alloc, epoch: s.epoch}
+	n.defers = append([]*ast.CallExpr(nil), s.defers...)
 	if len(s.reached) > 0 {
 		n.reached = make(map[*ast.CallExpr]string, len(s.reached))
 		for k, v := range s.reached {
@@ -610,6 +613,15 @@ func (u *Unit) merge(a, b *State) *State {
 		tb := u.heapTerm(b, k, u.heapSort[k])
 		out.heap[k] = ite(m, ta, tb)
 	}
+	if len(a.defers) != len(b.defers) {
+		u.fail("paths with different sets of deferred calls are joined (outside the verified subset)")
+	}
+	for i := range a.defers {
+		if a.defers[i] != b.defers[i] {
+			u.fail("paths with different sets of deferred calls are joined (outside the verified subset)")
+		}
+	}
+	out.defers = append([]*ast.CallExpr(nil), a.defers...)
 	if len(a.reached)+len(b.reached) > 0 {
 		out.reached = map[*ast.CallExpr]string{}
 		for k, va := range a.reached {
